@@ -120,6 +120,11 @@ func c08Frags(r *plan.Rng) []c08Frag {
 			"inmap.k = inp",
 			"inmap[ins] = len(inarr)",
 			"r9 := inarr[0] + inmap.k"}},
+		{name: "mutateNested", lines: []string{
+			"inarr[3][0] = inp",
+			"inmap.nest.x = inp + 1",
+			"inmap.nest.l[1] = ins",
+			"r9n := inarr[3][0] + inmap.nest.x + len(inmap.nest.l[1])"}},
 		{name: "format", lines: []string{
 			"r10 := format(\"%05d|%s|%v|%q|%x\", inp, ins, [1, 2], ins, inp)",
 			"r10b := format(\"%8.3f|%-6d|%c\", float(inp) / 3.0, inp, 'x' + inp % 3)"}},
@@ -333,8 +338,9 @@ func c08Inputs(r *plan.Rng, salt int) []plan.Input {
 	return []plan.Input{
 		{Name: "inp", Val: plan.GoInt(inp)},
 		{Name: "ins", Val: plan.Str(words[r.Intn(len(words))])},
-		{Name: "inarr", Val: plan.Arr(plan.Int(int64(salt)), plan.Int(2), plan.Str("z"))},
-		{Name: "inmap", Val: plan.Map(map[string]plan.Value{"k": plan.Int(int64(salt)), "j": plan.Str("v")})},
+		{Name: "inarr", Val: plan.Arr(plan.Int(int64(salt)), plan.Int(2), plan.Str("z"), plan.Arr(plan.Int(10), plan.Int(20)))},
+		{Name: "inmap", Val: plan.Map(map[string]plan.Value{"k": plan.Int(int64(salt)), "j": plan.Str("v"),
+			"nest": plan.Map(map[string]plan.Value{"x": plan.Int(1), "l": plan.Arr(plan.Int(1), plan.Str("q"))})})},
 	}
 }
 
